@@ -70,14 +70,14 @@ type DblRec struct {
 
 type ledgerSim struct {
 	pendingDbl []DblRec
-	hist  map[string]string // "chain/height" -> committee answered when that height was current
-	n     *node
-	run   int
-	out   *json.Encoder
-	small bool
-	rng   *rand.Rand
-	fee   uint64
-	prev  *Scan
+	hist       map[string]string // "chain/height" -> committee answered when that height was current
+	n          *node
+	run        int
+	out        *json.Encoder
+	small      bool
+	rng        *rand.Rand
+	fee        uint64
+	prev       *Scan
 }
 
 // validator 0 holds more than 2/3 of the power, always signs and is never touched by the generated operations, so
